@@ -378,6 +378,10 @@ def Cmd.isBinary : Cmd → Bool
   | .binary _ _ _ _ => true
   | _ => false
 
+/-- `_, ok := s.Cmd.(*BinaryCmd)` -/
+def Stmt.isBinaryCmd : Stmt → Bool
+  | .mk _ _ _ _ c => c.isBinary
+
 /-- `p.closingParen(stmts, nil, openPos, closePos)` before its `rightParen` call:
     the `wantSpace` decision. -/
 def P.closingParenSpace (p : P) (ss : Stmts) (openLine closeLine : Nat) : P :=
@@ -511,7 +515,7 @@ def P.command (p : P) : Cmd → P
   | .binary opPos op x y =>
     let p := (p.advanceLine x.pos.line).spacePad
     let p := p.stmt x
-    let r := p.binaryOp opPos op y.pos.line (match y with | .mk _ _ _ _ c => c.isBinary)
+    let r := p.binaryOp opPos op y.pos.line y.isBinaryCmd
     (r.1.stmt y).binaryEnd r.2.1 r.2.2
 
 /-- the loop of `p.stmtList(stmts, nil)`; `first` is `i == 0` -/
